@@ -752,7 +752,7 @@ def jobs_c01(tier):
 
 # ------------------------------------------------------------------------------------------------ C03: ListOffsetArray64::reduce_next, local branch
 @guard
-def h_reduce_local(lens):
+def h_reduce_local(lens, cls='ListOffsetArray64'):
     """ListOffsetArray64::reduce_next for a reduction below this list level (the 'local' branch, e.g. axis=-1 on lists of numbers): the content
     is handed exactly the elements covered by the lists, with parents[k] = index of the list holding element k and starts[i] = position of
     list i inside what is handed over (this is what argmin/argmax subtract); the results come back one per list"""
@@ -777,7 +777,9 @@ def h_reduce_local(lens):
     # the opaque content is a leaf level: branch_depth() = (false, 1), not an option type
     nc.m.eng.stubs['vf$slot%d' % nc.slot('12branch_depthEv')] = lambda eng, fr, ins, st, name, argv: [z3.BitVecVal(0, 8), BV(1)]
     nc.m.eng.stubs['vf$slot%d' % nc.slot('20dimension_optiontypeEv')] = lambda eng, fr, ins, st, name, argv: z3.BitVecVal(0, 1)
-    this, lists, offs = build_listoffset64(nc, lens)
+    # the other list classes re-express themselves as a zero-based ListOffsetArray64 first; the claim about what the content receives is the same
+    this, lists, starts_, offs, short = list_node(nc, cls, tuple(lens) if cls != 'RegularArray' else (lens[0] if lens else 0, len(lens)))
+    flat = [e.val for lst in lists for e in lst]
     # outer arguments as Content::reduce passes them for the outermost list: one group
     p0 = nc.m.array('parents0', ('i', 64), max(1, n), const=True, arr=z3.K(z3.BitVecSort(64), BV(0)))
     s0 = nc.m.array('starts0', ('i', 64), 1, const=True, arr=z3.K(z3.BitVecSort(64), BV(0)))
@@ -796,8 +798,10 @@ def h_reduce_local(lens):
     def s_bd(eng, fr, ins, st, name, argv):
         return z3.Concat(BV(1), BV(0, 8)) if False else None
     mask, keep = z3.BitVecVal(0, 1), z3.BitVecVal(0, 1)
-    fn = '_ZNK7awkward17ListOffsetArrayOfIlE11reduce_nextERKNS_7ReducerElRKNS_7IndexOfIlEES8_S8_lbb'
-    out = nc.m.call(fn, [Ptr('ret', 0), this, reducer, BV(1), starts, shifts, parents, BV(1), mask, keep])
+    cands = [f for mod_ in nc.m.eng.mods for f in mod_.func_src if f.startswith('_ZNK7awkward%s11reduce_nextERKNS_7ReducerEl' % short)]
+    if not cands:
+        raise Unsupported('reduce_next of %s not found in the IR' % cls)
+    out = nc.m.call(cands[0], [Ptr('ret', 0), this, reducer, BV(1), starts, shifts, parents, BV(1), mask, keep])
     obls = [('reduce_next does not raise', out.raised),
             ('the content is asked (exactly once on every path)', z3.Not(z3.Or([ob['pc'] for ob in seen] + [z3.BoolVal(False)])))]
     for a_, b_ in itertools.combinations(seen, 2):
@@ -807,7 +811,7 @@ def h_reduce_local(lens):
         G = lambda c: z3.And(g, c)
         obls.append(('the content handed over has the summed length of the lists', G(info['length'] != total)))
         for k in range(total):
-            obls.append(('element %d handed over is element %d of the covered range' % (k, k), G(z3.Select(info['atoms'], BV(k)) != offs[0] + k)))
+            obls.append(('element %d handed over is element %d of the covered elements (in list order)' % (k, k), G(z3.Select(info['atoms'], BV(k)) != flat[k])))
         want_par = [i for i, L in enumerate(lens) for _ in range(L)]
         if len(ob['parents']) != total:
             obls.append(('one parent per element', g))
@@ -831,25 +835,29 @@ def h_reduce_local(lens):
             obls += [(nm, z3.And(g, c)) for nm, c in compare(value(res), [[Elem(RED(BV(i))) for i in range(n)]])]
 
     def replay(model, ent):
-        ov = offsets_values(model, offs)
-        lc = max(model.eval(nc.lencontent, model_completion=True).as_signed_long(), ov[-1])
+        lc = model.eval(nc.lencontent, model_completion=True).as_signed_long()
         if lc > 200:
-            return False, 'content too long to replay', dict(offsets=ov)
-        prog = 'i64 %s listoffset64 %s reduce argmax -1 0 0' % (fullnative.ints(range(lc)), fullnative.ints(ov))
+            return False, 'content too long to replay', {}
+        head, inp = node_program(nc, model, lc)
         exp = [L - 1 if L > 0 else -1 for L in lens]
-        r1 = akrun_check(prog, exp, 'argmax(axis=-1) of ListOffsetArray64(offsets=%s) over 0..%d' % (ov, lc - 1))
+        r1 = akrun_check(head + 'reduce argmax -1 0 0', exp, 'argmax(axis=-1) of %s %s (content 0, 1, ...)' % (cls, inp))
         if r1[0]:
             return r1
-        prog = 'i64 %s listoffset64 %s reduce sum -1 0 0' % (fullnative.ints(range(lc)), fullnative.ints(ov))
-        return akrun_check(prog, [sum(range(ov[i], ov[i + 1])) for i in range(n)], 'sum(axis=-1) of ListOffsetArray64(offsets=%s)' % ov)
-    return mdischarge(nc.m, 'ListOffsetArray64::reduce_next local lens=%s' % ','.join(map(str, lens)), obls, [('non-zero offset origin', offs[0] > 0)], replay=replay,
-                      prefer=[offs[0] <= 3, offs[0] >= 1, nc.lencontent <= offs[-1] + 2],
+        return akrun_check(head + 'reduce sum -1 0 0', [sum(l) for l in inp], 'sum(axis=-1) of %s %s' % (cls, inp))
+    return mdischarge(nc.m, '%s::reduce_next local lens=%s' % (cls, ','.join(map(str, lens))), obls, [('non-zero offset origin', offs[0] > 0)] if cls.startswith('ListOffset') else [], replay=replay,
+                      prefer=[o <= 6 for o in offs[:1]] + [nc.lencontent <= 24],
                       extra=dict(bounds='list lengths %s concrete (case split); offsets origin symbolic; one outer group; opaque leaf content' % lens))
 
 
 def jobs_c03(tier):
     shapes = [(2,), (0, 3), (2, 0, 1)] if tier == 'quick' else [l for n in (1, 2, 3) for l in itertools.product(range(4), repeat=n)]
-    return [(h_reduce_local, (l,), 1800) for l in shapes]
+    js = [(h_reduce_local, (l,), 1800) for l in shapes]
+    for cls in ('ListOffsetArray32', 'ListOffsetArrayU32', 'ListArray64', 'ListArray32', 'ListArrayU32'):
+        for l in (shapes[-1:] if tier == 'quick' else shapes[:6]):
+            js.append((h_reduce_local, (l, cls), 1800))
+    for l in ([(2, 2)] if tier == 'quick' else [(2, 2), (1, 3), (3, 1), (2, 0)]):
+        js.append((h_reduce_local, (l, 'RegularArray'), 1800))
+    return js
 
 
 # ------------------------------------------------------------------------------------------------ C09: padding along axis 0
